@@ -133,6 +133,8 @@ enum SettingsMode {
     Late,
     /// the raw peer's SETTINGS (with its limit) are applied before the send / 431
     Applied,
+    /// the raw peer's SETTINGS are applied but do not mention a limit: protocol default in force
+    AppliedWithoutLimit,
     /// the raw peer's control stream never carries SETTINGS: protocol default (unlimited) in force
     Never,
 }
@@ -213,7 +215,7 @@ fn run_scn(c: &Scn, seed: u64, rep: &mut Report) {
     rep.evaluations += 1;
     rep.count("scenarios");
     rep.sig(hash64(&(c.recv, c.h3_server, c.kind, c.limit, c.s, c.nfields, c.mode, c.peer_limit)));
-    rep.count(&format!("settings_mode[{}]", match c.mode { SettingsMode::Never => "never", SettingsMode::Applied => "applied", SettingsMode::Late => "late(after the stream exists, before the send)" }));
+    rep.count(&format!("settings_mode[{}]", match c.mode { SettingsMode::Never => "never", SettingsMode::Applied => "applied", SettingsMode::AppliedWithoutLimit => "applied, no limit among the parameters", SettingsMode::Late => "late(after the stream exists, before the send)" }));
     if c.s == c.limit && c.recv || (!c.recv && c.s == c.peer_limit) {
         rep.count("size_exactly_at_limit");
     }
@@ -237,6 +239,7 @@ fn run_scn(c: &Scn, seed: u64, rep: &mut Report) {
         let id = n.raw_open(raw_side, false);
         match c.mode {
             SettingsMode::Applied => n.raw_write(raw_side, id, &raw::control_preamble(&[(rf::S_MAX_FIELD_SECTION_SIZE, c.peer_limit)])),
+            SettingsMode::AppliedWithoutLimit => n.raw_write(raw_side, id, &raw::control_preamble(&[(rf::S_H3_DATAGRAM, 1), (0x21 + 0x1f * (seed % 1000), seed % 77)])),
             SettingsMode::Never | SettingsMode::Late => n.raw_write(raw_side, id, &[0x00]),
         }
         raw_control = id;
@@ -474,7 +477,7 @@ fn run_scn(c: &Scn, seed: u64, rep: &mut Report) {
             (Kind::Head, false) => "send_request",
             (Kind::Trailers, _) => "send_trailers",
         };
-        let in_force = if c.mode == SettingsMode::Never { u64::MAX } else { c.peer_limit };
+        let in_force = if matches!(c.mode, SettingsMode::Never | SettingsMode::AppliedWithoutLimit) { u64::MAX } else { c.peer_limit };
         let ok = c.s <= in_force;
         rep.count(if ok { "expect[send ok]" } else { "expect[send refuse]" });
         match (ok, find(op)) {
@@ -580,6 +583,8 @@ fn run_case(gen: &str, index: u64, seed: u64, _tier: Tier, rep: &mut Report) {
                     run_scn(&scn, rng.next(), rep);
                     let scn = Scn { recv, h3_server, kind, limit: (1 << 62) - 1, s, nfields: nf, mode: SettingsMode::Late, peer_limit: l };
                     run_scn(&scn, rng.next(), rep);
+                    let scn = Scn { recv, h3_server, kind, limit: (1 << 62) - 1, s, nfields: nf, mode: SettingsMode::AppliedWithoutLimit, peer_limit: l };
+                    run_scn(&scn, rng.next(), rep);
                 }
             }
         }
@@ -595,7 +600,8 @@ fn run_case(gen: &str, index: u64, seed: u64, _tier: Tier, rep: &mut Report) {
                 _ => rng.below(l.min(30_000) * 2 + 400),
             };
             let mode = match rng.below(10) {
-                0 | 1 => SettingsMode::Never,
+                0 => SettingsMode::Never,
+                1 => SettingsMode::AppliedWithoutLimit,
                 2 | 3 if !recv => SettingsMode::Late,
                 _ => SettingsMode::Applied,
             };
